@@ -50,6 +50,7 @@ type TimeSpec struct {
 //
 //	create        CreateFile(key, size); only when the model says the key is absent
 //	read          GetFileReader + read everything + close (an access)
+//	readlater     clock += Dt seconds, then read (a consumer fetching the file later)
 //	stat          GetFileStat (loads the entry into the map without counting as an access)
 //	persist       SetFileMetadata(Persist(Flag))
 //	clearpersist  DeleteFileMetadata(Persist) (what the origin's forced cleanup does after write-back)
@@ -70,6 +71,7 @@ type Op struct {
 	Kind  string   `json:"kind"`
 	Key   int      `json:"key"`
 	Size  int      `json:"size,omitempty"`
+	Back  int      `json:"back,omitempty"` // create: the data file was written Back seconds before it entered the store (mtime = now - Back)
 	Flag  bool     `json:"flag,omitempty"`
 	Dt    int      `json:"dt,omitempty"`
 	Mode  string   `json:"mode,omitempty"`
@@ -79,6 +81,7 @@ type Op struct {
 	Lower int      `json:"lower,omitempty"` // lower threshold in percent
 	Total int      `json:"total,omitempty"` // injected disk size in bytes
 	Extra int      `json:"extra,omitempty"` // injected used bytes beyond the store's files
+	AtLow bool     `json:"at_low,omitempty"` // aggr-ttl: the injected disk size puts the usage exactly on the lower threshold
 }
 
 type Case struct {
@@ -107,15 +110,26 @@ func genSpec(t *rapid.T, label string) TimeSpec {
 func gen(t *rapid.T) Case {
 	var c Case
 	c.Cap = rapid.SampledFrom([]int{2, 3, 3, 4, 4, 16}).Draw(t, "cap")
-	kinds := []string{"create", "create", "create", "create", "create", "read", "read", "read", "stat",
-		"persist", "persist", "persist", "persist", "persist", "persist", "clearpersist", "advance", "advance", "advance", "advance", "advance",
+	kinds := []string{"create", "create", "create", "create", "create", "read", "read", "read", "readlater", "readlater", "readlater", "stat",
+		"persist", "persist", "persist", "persist", "persist", "clearpersist", "advance", "advance", "advance", "advance", "advance",
 		"delete", "delete", "reopen", "pass", "pass", "pass", "pass", "pass", "pass"}
 	modes := []string{"normal", "normal", "normal", "normal", "aggr-ttl", "aggr-ttl", "policy", "policy", "policy", "real-aggr", "real-calm", "real-policy"}
-	c.Ops = rapid.SliceOfN(rapid.Custom(func(t *rapid.T) Op {
+	// Setup prefix: a few files, usually one of them awaiting write-back.
+	nInit := rapid.IntRange(2, 4).Draw(t, "ninit")
+	for i := 0; i < nInit; i++ {
+		c.Ops = append(c.Ops, Op{Kind: "create", Key: i, Size: rapid.IntRange(0, 64).Draw(t, "isize"), Back: rapid.SampledFrom([]int{0, 0, 1, 2}).Draw(t, "iback")})
+	}
+	if rapid.IntRange(0, 3).Draw(t, "ipersist") > 0 {
+		c.Ops = append(c.Ops, Op{Kind: "persist", Key: rapid.IntRange(0, nInit-1).Draw(t, "ipkey"), Flag: true})
+	}
+	rest := rapid.SliceOfN(rapid.Custom(func(t *rapid.T) Op {
 		op := Op{Kind: rapid.SampledFrom(kinds).Draw(t, "kind"), Key: rapid.IntRange(0, nKeys-1).Draw(t, "key")}
 		switch op.Kind {
 		case "create":
 			op.Size = rapid.IntRange(0, 64).Draw(t, "size")
+			op.Back = rapid.SampledFrom([]int{0, 0, 0, 1, 2, 30}).Draw(t, "back")
+		case "readlater":
+			op.Dt = rapid.SampledFrom([]int{299, 300, 301, 600, 2699, 2700, 2701, 2702, 3600, 7200}).Draw(t, "dt")
 		case "persist":
 			op.Flag = rapid.IntRange(0, 5).Draw(t, "flag") > 0
 		case "advance":
@@ -130,16 +144,21 @@ func gen(t *rapid.T) Case {
 				op.Lower = rapid.SampledFrom([]int{0, 0, 10, 50, 90}).Draw(t, "lower")
 				op.Total = rapid.IntRange(100, 1000).Draw(t, "total")
 				op.Extra = rapid.IntRange(0, 400).Draw(t, "extra")
+				if rapid.IntRange(0, 3).Draw(t, "atlow") == 0 {
+					op.AtLow = true
+					op.Lower = rapid.SampledFrom([]int{10, 50}).Draw(t, "lower2")
+				}
 			case "policy":
 				op.Lower = rapid.IntRange(1, 99).Draw(t, "lower")
-				op.Total = rapid.IntRange(1, 300).Draw(t, "total")
-				op.Extra = rapid.IntRange(0, 60).Draw(t, "extra")
+				op.Total = rapid.IntRange(1, 100).Draw(t, "total")
+				op.Extra = rapid.IntRange(0, 20).Draw(t, "extra")
 			case "real-policy":
 				op.Lower = rapid.SampledFrom([]int{1, 50, 99}).Draw(t, "lower")
 			}
 		}
 		return op
-	}), 6, 40).Draw(t, "ops")
+	}), 4, 36).Draw(t, "ops")
+	c.Ops = append(c.Ops, rest...)
 	return c
 }
 
@@ -448,6 +467,9 @@ func run(c Case) pbt.Verdict {
 		k := w.pick(op.Key, op.Kind == "create")
 		if k < 0 {
 			classes["skipped-op-without-applicable-key"] = true
+			if op.Kind == "readlater" && op.Dt > 0 {
+				w.clk.Add(time.Duration(op.Dt) * time.Second)
+			}
 			if op.Kind != "advance" && op.Kind != "reopen" && op.Kind != "pass" {
 				continue
 			}
@@ -466,15 +488,22 @@ func run(c Case) pbt.Verdict {
 				return pbt.Verdict{Discard: true, Classes: []string{"create-error"}}
 			}
 			now := w.clk.Now()
-			if err := os.Chtimes(filepath.Join(w.dataDir(k), base.DefaultDataFileName), now, now); err != nil {
+			if op.Back < 0 {
+				op.Back = 0
+			}
+			mt := now.Add(-time.Duration(op.Back) * time.Second)
+			if err := os.Chtimes(filepath.Join(w.dataDir(k), base.DefaultDataFileName), mt, mt); err != nil {
 				return pbt.Verdict{Discard: true}
 			}
-			*f = fileModel{exists: true, size: int64(op.Size), mtime: now.Unix(), latLo: now.Unix(), latHi: now.Unix()}
+			*f = fileModel{exists: true, size: int64(op.Size), mtime: mt.Unix(), latLo: now.Unix(), latHi: now.Unix()}
 			noteLoad(k)
 			if msg := resync(when, -1); msg != "" {
 				return pbt.Fail("%s", msg)
 			}
-		case "read":
+		case "read", "readlater":
+			if op.Kind == "readlater" && op.Dt > 0 {
+				w.clk.Add(time.Duration(op.Dt) * time.Second)
+			}
 			r, err := w.op().GetFileReader(name, 0)
 			if err == nil {
 				b, rerr := io.ReadAll(r)
@@ -672,6 +701,9 @@ func (w *world) pass(i int, op Op, realUtil int) (msg string, classes []string, 
 		if used > total {
 			total = used
 		}
+		if op.AtLow && (op.Lower == 10 || op.Lower == 50) && used > 0 {
+			total = used * uint64(100/op.Lower) // total*lower/100 == used
+		}
 		util := 0
 		if total > 0 {
 			util = int(used * 100 / total)
@@ -682,6 +714,7 @@ func (w *world) pass(i int, op Op, realUtil int) (msg string, classes []string, 
 	lop := loggingOp{w.op(), &attempts}
 	exact := false  // the pass must delete exactly the expired unprotected files
 	subset := false // the pass may delete only expired unprotected files
+	nothing := false // the pass must not delete at all (disk already at or below the lower threshold)
 	policy := false
 	when := fmt.Sprintf("op %d pass mode=%s tti=%ds ttl=%ds lower=%d cap=%d files=%d now=%d", i, op.Mode, tti, ttl, op.Lower, w.cap, existing, now)
 	var err error
@@ -694,8 +727,19 @@ func (w *world) pass(i int, op Op, realUtil int) (msg string, classes []string, 
 			ttl, ttlD = 3600, time.Hour
 		}
 		_, err = w.vc.TTLBasedCleanup(lop, ttiD, ttlD, op.Lower, usage)
-		exact = op.Lower == 0
+		u, _ := usage()
+		lowBytes := int64(u.TotalBytes * uint64(op.Lower) / 100)
+		// Without a lower threshold, or when even removing every file of the store cannot
+		// bring the disk down to it, the pass is exact; when the disk is already at or below
+		// the lower threshold the pass must not delete anything.
+		exact = op.Lower == 0 || int64(u.UsedBytes)-sumSizes > lowBytes
 		subset = true
+		nothing = op.Lower != 0 && int64(u.UsedBytes) <= lowBytes
+		if nothing {
+			add("aggr-ttl-pass-already-below-lower-threshold")
+		} else if op.Lower != 0 && !exact {
+			add("aggr-ttl-pass-lower-threshold-inside-scan")
+		}
 	case "policy":
 		_, err = w.vc.CustomPolicyBasedCleanup(lop, store.CleanupConfig{TTI: ttiD, AggressiveThreshold: 1, AggressiveTTL: time.Hour, AggressiveLowerThreshold: op.Lower}, usage)
 		policy = true
@@ -771,6 +815,9 @@ func (w *world) pass(i int, op Op, realUtil int) (msg string, classes []string, 
 		if gone {
 			deletedAny = true
 		}
+		if nothing && gone && !evictionPossible {
+			return fmt.Sprintf("aggressive cleanup deleted a file although the disk was already at or below the lower threshold\n  %s: key %d", when, k), classes, false, false
+		}
 		if (exact) && exp[k].mustDelete && !gone {
 			return fmt.Sprintf("cleanup kept an unprotected file that is idle or expired\n  %s: key %d mtime=%d (age %ds) last access=%d (idle %ds)", when, k, f.mtime, now-f.mtime, f.latHi, now-f.latHi), classes, false, false
 		}
@@ -805,6 +852,15 @@ func (w *world) pass(i int, op Op, realUtil int) (msg string, classes []string, 
 			}
 			if exactLat {
 				prev = k
+			}
+			if op.Mode == "policy" {
+				// Sound under both readings of the byte target (used-lower, as documented, or
+				// total-lower, as coded): nothing is visited once total-lower bytes are gone.
+				u, _ := usage()
+				if target := int64(u.TotalBytes) - int64(u.TotalBytes*uint64(op.Lower)/100); deletedBytes >= target {
+					return fmt.Sprintf("usage-driven cleanup went on after the byte target was met\n  %s: %d bytes already deleted, target %d (%d%% of %d), yet key %d was visited",
+						when, deletedBytes, target, 100-op.Lower, u.TotalBytes, k), classes, false, false
+				}
 			}
 			if a.err == nil {
 				deletedBytes += before[k].size
